@@ -580,3 +580,6 @@ func checkC20B(pc *PolyCase) (o *Outcome) {
 func TestC20Roots(t *testing.T) { runGenerated(t, propC20B) }
 
 var _ = fmt.Sprint
+
+// TestC20Exhaustive feeds the exhaustively enumerated grid corridors of TestC19Exhaustive to the spline fitter.
+func TestC20Exhaustive(t *testing.T) { exhaustiveCorridors(t, propC20, true) }
